@@ -1,6 +1,7 @@
 package govc
 
 import (
+	"fmt"
 	"go/constant"
 	"go/token"
 	"go/types"
@@ -162,6 +163,7 @@ func (e *Enc) instr(fr *Frame, st *State, ins ssa.Instruction) {
 			unsupported("range over %s", ins.X.Type())
 		}
 		fr.Vals[ins] = &Val{T: x.T}
+		e.rangeInit(fr, st, ins, x.T)
 	case *ssa.Next:
 		fr.Vals[ins] = e.next(fr, st, ins)
 	case *ssa.Defer:
@@ -427,6 +429,8 @@ func (e *Enc) bytesOfString(st *State, s *smt.Term, elem types.Type) *smt.Term {
 	i := c.BoundVar("i", smt.BV(64))
 	e.assume(st, c.Forall([]*smt.Term{i}, c.Implies(c.Cmp("bvult", i, ln), c.Eq(c.Select(arr, i), c.App("strbyte", smt.BV(8), s, i)))))
 	e.setHeap(st, hn, c.Store(h, obj, arr))
+	// string([]byte(s)) == s: converting the fresh copy back yields the same string
+	e.assume(st, c.Eq(c.App("str_of_bytes", smt.BV(StrW), arr, e.bv64(0), ln), s))
 	return e.mkSlice(obj, e.bv64(0), ln, ln)
 }
 
@@ -784,7 +788,48 @@ func (e *Enc) mapUpdate(fr *Frame, st *State, ins *ssa.MapUpdate) {
 	e.setHeap(st, mapHeap(mt), c.Store(vh, m, c.Store(c.Select(vh, m), k, v)))
 }
 
-// next: one step of a map iteration; key/value arbitrary among present entries.
+// Map iteration. Every *ssa.Range over a map owns two ghost cells: the number of entries handed out so far and the
+// set of keys handed out. One step either yields a present key that was not handed out before, or reports the end, at
+// which point every present key has been handed out. While the map's domain is the one the iteration started with
+// (no insert / delete since), the count is below len(map) before a successful step and equals it at the end (the
+// Go specification: each entry is produced exactly once when the map is not modified during the iteration).
+func rangeOrdinal(rg *ssa.Range) int {
+	n := 0
+	for _, b := range rg.Parent().Blocks {
+		for _, ins := range b.Instrs {
+			if r, ok := ins.(*ssa.Range); ok {
+				if r == rg {
+					return n
+				}
+				n++
+			}
+		}
+	}
+	return -1
+}
+
+func iterHeaps(rg *ssa.Range) (count, seen string) {
+	base := fmt.Sprintf("iter:%s#%d", fnName(rg.Parent()), rangeOrdinal(rg))
+	return base + ":count", base + ":seen"
+}
+
+func (e *Enc) rangeInit(fr *Frame, st *State, rg *ssa.Range, m *smt.Term) {
+	c := e.C
+	mt := rg.X.Type().Underlying().(*types.Map)
+	cn, sn := iterHeaps(rg)
+	ks := sortOf(mt.Key())
+	e.hsorts[cn] = smt.BV(64)
+	e.hsorts[sn] = smt.Array(ks, smt.Bool)
+	e.setHeap(st, cn, e.bv64(0))
+	e.setHeap(st, sn, c.ConstArray(smt.Array(ks, smt.Bool), c.False()))
+	ds, _ := e.mapSorts(mt)
+	if e.rangeDom == nil {
+		e.rangeDom = map[*ssa.Range]*smt.Term{}
+	}
+	e.rangeDom[rg] = c.Select(e.heap(st, mapDomHeap(mt), ds), m)
+}
+
+// next: one step of a map iteration.
 func (e *Enc) next(fr *Frame, st *State, ins *ssa.Next) *Val {
 	c := e.C
 	if ins.IsString {
@@ -796,8 +841,23 @@ func (e *Enc) next(fr *Frame, st *State, ins *ssa.Next) *Val {
 	ok := c.Fresh("next.ok", smt.Bool)
 	k := c.Fresh("next.key", sortOf(mt.Key()))
 	dom, val := e.mapRead(st, mt, it.T, k)
-	e.assume(st, c.Implies(ok, dom))
-	e.note("map iteration order in %s modelled as arbitrary (no exactly-once tracking)", fnName(fr.Fn))
+	cn, sn := iterHeaps(rng)
+	cnt := e.heap(st, cn, e.hsorts[cn])
+	seen := e.heap(st, sn, e.hsorts[sn])
+	e.assume(st, c.Implies(ok, c.And(dom, c.Not(c.Select(seen, k)))))
+	ds, _ := e.mapSorts(mt)
+	domArr := c.Select(e.heap(st, mapDomHeap(mt), ds), it.T)
+	q := c.BoundVar("k", sortOf(mt.Key()))
+	e.assume(st, c.Implies(c.Not(ok), c.Forall([]*smt.Term{q}, c.Implies(c.And(c.Ne(it.T, e.bv64(0)), c.Select(domArr, q)), c.Select(seen, q)))))
+	if e.rangeDom[rng] == domArr {
+		n := e.mapLen(st, mt, it.T)
+		e.assume(st, c.Implies(ok, c.Cmp("bvult", cnt, n)))
+		e.assume(st, c.Implies(c.Not(ok), c.Eq(cnt, n)))
+	} else {
+		e.note("map modified during its iteration in %s: no relation between the step count and len(map)", fnName(fr.Fn))
+	}
+	e.setHeap(st, cn, c.Ite(ok, c.BVOp("bvadd", cnt, e.bv64(1)), cnt))
+	e.setHeap(st, sn, c.Ite(ok, c.Store(seen, k, c.True()), seen))
 	if wf := e.wellFormed(val, mt.Elem(), st); !wf.IsTrue() {
 		e.assume(st, wf)
 	}
